@@ -980,6 +980,14 @@ impl<'a, 'b> InternalDelphiLogicalLineParser<'a, 'b> {
                             token.set_token_type(TT::Keyword(KK::Const(DK::Other)));
                             self.next_token();
                         }
+                        if let Some(TT::Keyword(KK::Function | KK::Procedure)) =
+                            self.get_current_token_type()
+                        {
+                            // array of procedure ...
+                            self.parse_routine_header();
+                            self.finish_logical_line();
+                            return;
+                        }
                     }
                 }
                 TT::Keyword(KK::Var(_)) => {
